@@ -153,6 +153,8 @@ type History struct {
 	SideE string `json:"side_e,omitempty"`
 	// number of blocks node D imports the ordinary way before the rest arrives as a fork
 	SideFrom int `json:"side_from,omitempty"`
+	// the restarted importer is reopened from its database after these many blocks
+	Restarts []int `json:"restarts,omitempty"`
 	Fork     *ForkIn `json:"fork,omitempty"`
 	// gas limit of the genesis block (0 = 60 000 000); small values make blocks that
 	// are full in gas-limit reservations cheap
@@ -243,6 +245,8 @@ type BlockObs struct {
 	SideErr        string     `json:"-"` // error of the real side-chain import path (node D), reported on the first block
 	SideSkipped    bool       `json:"-"`
 	Fork           *ForkObs   `json:"-"`
+	RestartErr     string     `json:"-"` // restarted importer: error / panic on this block
+	Restarted      int        `json:"-"` // restarted importer was reopened from disk before this block (count on block 1)
 	BlockGasLimit  uint64     `json:"-"`
 	GasSteps       []GasStep  `json:"-"` // the candidates in the order the worker tried them
 	FinalPool      uint64     `json:"-"`
@@ -661,8 +665,17 @@ func (w *World) writeGenesis(db youdb.Database) *types.Block {
 }
 
 func (w *World) newNode(name string, probes bool) *Node {
-	n := &Node{name: name, db: youdb.NewMemDatabase(), mux: new(event.TypeMux)}
-	w.writeGenesis(n.db)
+	return w.openNode(name, probes, youdb.NewMemDatabase(), true)
+}
+
+// openNode creates the chain objects (BlockChain, state database with its trie
+// node cache, staking module) over a database; with genesis=false the database
+// already holds a chain: a node restarted from disk.
+func (w *World) openNode(name string, probes bool, db youdb.Database, genesis bool) *Node {
+	n := &Node{name: name, db: db, mux: new(event.TypeMux)}
+	if genesis {
+		w.writeGenesis(n.db)
+	}
 	n.eng = &fakeEngine{Solo: solo.NewSolo()}
 	var eng consensus.Engine = n.eng
 	if name == "D" || name == "E" || strings.HasPrefix(name, "F") {
@@ -1778,6 +1791,54 @@ func (w *World) forks(obs []*BlockObs) {
 			if fo.Unprepared == "" {
 				w.onCanonical(f3, long, longRecs, "side first then reorg ("+f.Unprepared+")", fo)
 			}
+		}
+	}
+}
+
+// restarted: an importer that is stopped and reopened from its database (new
+// BlockChain, new state database and trie-node cache, new staking module: nothing
+// in memory survives) at the block boundaries of h.Restarts must import what the
+// never-restarted builder built.
+func (w *World) restarted(obs []*BlockObs) {
+	if w.h.Plain || len(w.h.Restarts) == 0 || len(obs) == 0 {
+		return
+	}
+	at := map[int]bool{}
+	for _, r := range w.h.Restarts {
+		at[r] = true
+	}
+	node := w.newNode("R", false)
+	defer func() {
+		if node != nil && node.bc != nil {
+			node.bc.Stop()
+		}
+	}()
+	for i, blk := range w.blocks {
+		if i >= len(obs) || !obs[i].Imported || len(obs[i].ReexecDiff) > 0 {
+			return
+		}
+		if at[i] && i > 0 {
+			node.bc.Stop()
+			time.Sleep(time.Millisecond)
+			node = w.openNode("R", false, node.db, false)
+			obs[0].Restarted++
+		}
+		o := obs[i]
+		func() {
+			defer func() {
+				if r := recover(); r != nil {
+					o.RestartErr = stackFn(fmt.Sprint("panic: ", r))
+					node.bc = nil
+				}
+			}()
+			if err := node.bc.InsertChain(types.Blocks{blk}); err != nil {
+				o.RestartErr = err.Error()
+			} else if node.bc.CurrentBlock().Hash() != blk.Hash() || !sameRecs(recObs(node.bc.GetReceiptsByHash(blk.Hash())), o.Recs) {
+				o.RestartErr = "head or receipts differ from the builder's"
+			}
+		}()
+		if o.RestartErr != "" {
+			return
 		}
 	}
 }
